@@ -318,6 +318,10 @@ def segClosestQ2 (s0 s1 c : V2 α) : V2 α :=
 
 /-! ## `Capsule` -/
 
+/-- Go `coord == proxy.Center` on coordinates (component-wise float equality). -/
+def vecEq3 (a b : V3 α) : Bool := isZero (a.x - b.x) && isZero (a.y - b.y) && isZero (a.z - b.z)
+def vecEq2 (a b : V2 α) : Bool := isZero (a.x - b.x) && isZero (a.y - b.y)
+
 /-- the rounded-side branch of `Capsule.genericSDF` / `Cylinder.genericSDF`: the normal
 `safeNormal(coord - projPoint, b1, axis)` -/
 def sideNormal3 (E : Env α) (p1 axis : V3 α) (dot : α) (c : V3 α) : V3 α :=
@@ -332,7 +336,11 @@ def capsuleOut3 (E : Env α) (p1 p2 : V3 α) (r : α) (c : V3 α) : Out3 α :=
   let axis := v.scale (1 / norm)
   let dot := (c.sub p1).dot axis
   if dot < 0 ∨ norm < dot then
-    sphereOut E (if dot < 0 then p1 else p2) r c
+    let center := if dot < 0 then p1 else p2
+    if vecEq3 c center then
+      let normal := if dot < 0 then axis.scale (-1) else axis
+      ⟨r, normal, c.add (normal.scale r)⟩
+    else sphereOut E center r c
   else
     let sdf := r - segDist3 E p1 p2 c
     let normal := sideNormal3 E p1 axis dot c
@@ -345,7 +353,11 @@ def capsuleOut2 (E : Env α) (p1 p2 : V2 α) (r : α) (c : V2 α) : Out2 α :=
   let axis := v.scale (1 / norm)
   let dot := (c.sub p1).dot axis
   if dot < 0 ∨ norm < dot then
-    circleOut E (if dot < 0 then p1 else p2) r c
+    let center := if dot < 0 then p1 else p2
+    if vecEq2 c center then
+      let normal := if dot < 0 then axis.scale (-1) else axis
+      ⟨r, normal, c.add (normal.scale r)⟩
+    else circleOut E center r c
   else
     let sdf := r - segDist2 E p1 p2 c
     let projPoint := p1.add (axis.scale dot)
